@@ -1,0 +1,26 @@
+//go:build verif
+
+package jsonata
+
+import "github.com/blues/jsonata-go/jparse"
+
+// Verification hooks. This file is only compiled with -tags verif.
+
+// VerifNode returns the root node of the compiled expression so
+// that a verification harness can take a deep snapshot of the
+// syntax tree before and after an evaluation.
+func (e *Expr) VerifNode() jparse.Node {
+	return e.node
+}
+
+// VerifYield, when non-nil, is called at the instrumented call
+// sites with the site name and the name of the callable involved.
+// A harness may yield or spin inside it to widen interleavings.
+// It must be set before any concurrent use of the package.
+var VerifYield func(site string, name string)
+
+func verifYield(site string, name string) {
+	if f := VerifYield; f != nil {
+		f(site, name)
+	}
+}
